@@ -354,7 +354,7 @@ def work(item):
     win = (N.WIN_LO, N.WIN_HI, N.PIN) if item["arch"] == "amd64" else None
     item = dict(item); item["pin_pc"] = True
     r = liftcheck.analyse(item["arch"], "little", item, specfn, k=steps_for(d), timeout_ms=int(os.environ.get("VERIF_QUERY_MS", "30000")), window=win,
-                          observables=observable, flag_names=X.FLAGS)
+                          observables=observable, flag_names=X.FLAGS, k_is_bound=True)
     r["sig"] = signature(item, r)
     r["mn"] = d["mn"]
     return r
